@@ -47,10 +47,11 @@ class PolarsSchemaBackend(BaseSchemaBackend):
             obj_subsample.append(check_obj.tail(tail))
         if sample is not None:
             obj_subsample.append(
-                # mypy is detecting a bug https://github.com/unionai-oss/pandera/issues/1912
-                check_obj.sample(  # type:ignore [attr-defined]
-                    sample, random_state=random_state
-                )
+                # a LazyFrame cannot be sampled, see
+                # https://github.com/unionai-oss/pandera/issues/1912
+                check_obj.collect()
+                .sample(sample, seed=random_state)
+                .lazy()
             )
         return (
             check_obj
